@@ -137,6 +137,10 @@ def _convert_internal_expression_to_pddl(
         if comp:
             components.append(comp)
 
+        elif operator == "*":
+            # a factor that was rounded to zero makes the whole product zero - it cannot just be removed.
+            return None if should_remove_trailing_zeros else "0"
+
     nested_expression = ""
     for component in reversed(components):
         if nested_expression:
@@ -167,13 +171,15 @@ def convert_expr_to_pddl(
     :return: the PDDL expression.
     """
     initial_operator = SYMPY_OP_TO_PDDL_OP[expr.func]
-    return _convert_internal_expression_to_pddl(
+    pddl_expression = _convert_internal_expression_to_pddl(
         expr,
         initial_operator,
         {val: key for key, val in symbolic_vars.items()},
         decimal_digits=decimal_digits,
         should_remove_trailing_zeros=should_remove_trailing_zeros,
     )
+    # an expression in which everything was rounded to zero is zero (and not an empty string or None).
+    return pddl_expression if pddl_expression else "0"
 
 
 def transform_expression(
